@@ -326,6 +326,11 @@ package css
 //@      forall(i, 1, len(p.state), isBlockState(p.state[i])) && tokOK(p.tt, p.data, p) && (p.prevEnd ==> p.l.r.pos >= 1) && (p.tt == CommentToken ==> len(p.state) == 1) &&
 //@      0 <= p.errPos && p.errPos <= len(p.l.r.buf)-1
 
+// bracket bookkeeping of the component-value scanners: a token that opens a bracket (a function token includes its '(')
+// raises the level by one, a closing bracket lowers it by one, nothing else changes it
+//@ pred cssOpens(tt) := tt == LeftParenthesisToken || tt == LeftBraceToken || tt == LeftBracketToken || tt == FunctionToken
+//@ pred cssCloses(tt) := tt == RightParenthesisToken || tt == RightBraceToken || tt == RightBracketToken
+//@ pred cssLevelStep(tt) := ite(cssOpens(tt), 1, 0) - ite(cssCloses(tt), 1, 0)
 //@ func Parser.popToken
 //@   preserves[S] p != nil && p.l != nil && lexInv(p.l) && p.l.r.start == p.l.r.pos && p.l.r.pos >= old(p.l.r.pos)
 //@   ensures[S]  tokOK(result0, result1, p) && len(result1) <= p.l.r.pos - old(p.l.r.pos) && (result0 != ErrorToken ==> p.l.r.pos > old(p.l.r.pos)) && (result0 == RightBraceToken ==> p.l.r.pos >= 1) && (result0 == CommentToken ==> allowComment && len(p.state) == 1)
@@ -404,6 +409,7 @@ package css
 //@   loop * candidate[T] cpM(p) <= old(cpM(p))
 
 //@ func Parser.parseAtRuleUnknown
+//@   ensures[F,C08] @level: result == TokenGrammar && smallInt(old(p.level)) ==> p.level == old(p.level) + cssLevelStep(old(p.tt))
 //@   preserves[S] cpInv(p) && p.l.r.pos >= old(p.l.r.pos)
 //@   requires[S] p.state[len(p.state)-1] == self() || (isBlockState(p.state[len(p.state)-1]) && !isBlockState(self()) && p.tt != ErrorToken && p.tt != SemicolonToken && p.tt != CommentToken && p.tt != RightBraceToken)
 //@   ensures[F,C08] @begin-atrule: result == BeginAtRuleGrammar ==> len(p.state) == old(len(p.state)) + 1 && isAtRuleBlock(p.state[len(p.state)-1])
@@ -436,6 +442,7 @@ package css
 //@   loop * candidate[T] cpM(p) <= old(cpM(p))
 
 //@ func Parser.parseAtRule
+//@   loop 1 transition[F,C08] @level: smallInt(prev(p.level)) ==> p.level == prev(p.level) + cssLevelStep(tt)
 //@   loop * candidate len(p.state) == old(len(p.state))
 //@   loop * candidate p.prevEnd == old(p.prevEnd)
 //@   loop * candidate forall(i, 0, len(p.state), p.state[i] == old(p.state[i]))
@@ -455,6 +462,7 @@ package css
 // the at-rule kind is looked up from the lower-cased name (the hash table holds lower-case names only)
 //@   callsite css.ToHash[F,C08] @lowered: forall(k, 0, len(arg0), !('A' <= arg0[k] && arg0[k] <= 'Z'))
 //@ func Parser.parseQualifiedRule
+//@   loop 1 transition[F,C08] @level: smallInt(prev(p.level)) ==> p.level == prev(p.level) + cssLevelStep(tt)
 //@   loop * candidate[T] first ==> p.tt == old(p.tt) && cpM(p) == old(cpM(p))
 //@   loop * candidate len(p.state) == old(len(p.state))
 //@   loop * candidate p.prevEnd == old(p.prevEnd)
@@ -474,6 +482,7 @@ package css
 //@   loop * candidate[T] cpM(p) <= old(cpM(p))
 //@   loop * decreases 2*(len(p.l.r.buf) - p.l.r.pos) + ite(first, 1, 0)
 //@ func Parser.parseDeclaration
+//@   loop 1 transition[F,C08] @level: smallInt(prev(p.level)) ==> p.level == prev(p.level) + cssLevelStep(tt)
 //@   requires[T] p.tt != ErrorToken
 //@   loop * candidate 0 <= offset && offset <= p.l.r.pos
 //@   loop * candidate len(p.state) == old(len(p.state))
@@ -496,6 +505,7 @@ package css
 //@   loop * candidate 0 <= offset
 //@   loop 1 decreases len(p.l.r.buf) - p.l.r.pos
 //@ func Parser.parseDeclarationError
+//@   loop 1 transition[F,C08] @level: smallInt(prev(p.level)) ==> p.level == prev(p.level) + cssLevelStep(prev(tt))
 //@   loop * candidate len(p.state) == old(len(p.state))
 //@   loop * candidate p.prevEnd == old(p.prevEnd)
 //@   loop * candidate forall(i, 0, len(p.state), p.state[i] == old(p.state[i]))
@@ -515,6 +525,7 @@ package css
 //@   loop 1 invariant tokOK(tt, data, p) && (tt == RightBraceToken ==> p.l.r.pos >= 1) && tt != CommentToken
 //@   loop 1 decreases ite(tt == ErrorToken, 0, len(p.l.r.buf) - p.l.r.pos + 1)
 //@ func Parser.parseCustomProperty
+//@   loop 1 transition[F,C08] @level: smallInt(prev(p.level)) ==> p.level == prev(p.level) + cssLevelStep(tt)
 //@   requires[T] p.tt != ErrorToken
 //@   loop * candidate len(p.state) == old(len(p.state))
 //@   loop * candidate p.prevEnd == old(p.prevEnd)
